@@ -19,6 +19,7 @@ def main(tier, seed, replay):
         k.validate_profile("rates", 100)
         k.validate_profile("split", 80)
         k.validate_profile("rel", 80)
+        k.replay_behaviours("EXH_Rate", mc_consts(comps=("A", "P"), kinds=("spawn", "mutate", "remove"), ops=4, ticks=3, idle=0, cframes=0), 0, invariants=inv)
     else:
         k.model_check("MC_Mut", mc_consts(ops=4, ticks=3, idle=2, cframes=3), inv, props, timeout=3000)
         k.model_check("MC_Mut2", mc_consts(ents=("e1", "e2"), ops=3, ticks=3, kinds=("spawn", "mutate", "insert")), inv, props, timeout=3000)
@@ -32,6 +33,8 @@ def main(tier, seed, replay):
         k.validate_profile("vis_black", 1000)
         k.validate_profile("rel", 1500)
         k.validate_profile("rel_split", 1000)
+        k.replay_behaviours("EXH_Rate", mc_consts(comps=("A", "P", "O"), kinds=("spawn", "mutate", "remove", "insert"), ops=4, ticks=3, idle=0, cframes=0), 0, invariants=inv, timeout=3000)
+        k.replay_behaviours("EXH_Mut_c1", mc_consts(kinds=("spawn", "insert", "mutate", "remove"), ops=3, ticks=2, idle=1, cframes=1), 0, invariants=inv, timeout=3000)
     k.selftest(tr)
     return k.finish(assumptions=[
         "per-tick server snapshots are rebuilt by the validator from the recorded server states, independently of the model of the server",
